@@ -215,4 +215,97 @@ def printSchema (d : SchemaDoc) : List Tok :=
     ++ d.definitions.map (fun x => (x.pos.start, printDefinition x))
     ++ d.extensions.map (fun x => (x.pos.start, printExtension x)))).flatten
 
+/-! ### well-formed trees: exactly the side conditions under which the print is a sentence -/
+
+mutual
+  /-- a `Value[Const]`: no variable inside -/
+  def ConstValue : Value → Prop
+    | .mk k _ ch _ => k ≠ .variable ∧ ConstChildren ch
+  def ConstChildren : Children → Prop
+    | .nil => True
+    | .cons _ v _ rest => ConstValue v ∧ ConstChildren rest
+end
+
+/-- `Directives[Const]` -/
+def ConstDirectives (ds : List Directive) : Prop := ∀ d ∈ ds, ∀ a ∈ d.args, ConstValue a.value
+
+mutual
+  /-- fragment names are not `on`; the selection set of an inline fragment is not empty -/
+  def WFSelection : Selection → Prop
+    | .field _ _ _ _ sel _ => WFSelections sel
+    | .spread nm _ _ => nm ≠ str "on"
+    | .inline _ _ sel _ => sel ≠ .nil ∧ WFSelections sel
+  def WFSelections : Selections → Prop
+    | .nil => True
+    | .cons s rest => WFSelection s ∧ WFSelections rest
+end
+
+/-- default value and directives of a variable definition are constant -/
+def WFVarDef (v : VarDef) : Prop := (∀ d, v.default = some d → ConstValue d) ∧ ConstDirectives v.dirs
+
+def WFOperation (o : OperationDef) : Prop :=
+  (o.op = str "query" ∨ o.op = str "mutation" ∨ o.op = str "subscription")
+  ∧ (∀ v ∈ o.vars, WFVarDef v) ∧ o.sel ≠ .nil ∧ WFSelections o.sel
+
+def WFFragment (f : FragmentDef) : Prop :=
+  f.name ≠ str "on" ∧ (∀ v ∈ f.vars, WFVarDef v) ∧ f.sel ≠ .nil ∧ WFSelections f.sel
+
+/-- the executable documents whose print is derivable: at least one definition, known operation
+    types, non-empty required selection sets, no fragment called `on`, constants where the
+    grammar says `[Const]`.  (Empty argument / variable / directive lists and empty optional
+    selection sets print as nothing, so they need no condition.) -/
+def WFQuery (d : QueryDoc) : Prop :=
+  (d.ops ≠ [] ∨ d.frags ≠ []) ∧ (∀ o ∈ d.ops, WFOperation o) ∧ (∀ f ∈ d.frags, WFFragment f)
+
+def WFArgDef (a : ArgDef) : Prop := (∀ d, a.default = some d → ConstValue d) ∧ ConstDirectives a.dirs
+
+/-- a FieldDefinition (objects, interfaces): constant directives, well-formed argument definitions -/
+def WFFieldDef (f : FieldDef) : Prop := (∀ a ∈ f.args, WFArgDef a) ∧ ConstDirectives f.dirs
+
+/-- an InputValueDefinition of an input object -/
+def WFInputField (f : FieldDef) : Prop := (∀ d, f.default = some d → ConstValue d) ∧ ConstDirectives f.dirs
+
+def notLiteralName (n : Name) : Prop := n ≠ str "true" ∧ n ≠ str "false" ∧ n ≠ str "null"
+
+def WFEnumVal (e : EnumValDef) : Prop := notLiteralName e.name ∧ ConstDirectives e.dirs
+
+/-- the conditions on the parts of a type definition or extension that its kind prints -/
+def WFDefBody (d : Definition) : Prop :=
+  ConstDirectives d.dirs ∧
+  match d.kind with
+  | .scalar => True
+  | .object => ∀ f ∈ d.fields, WFFieldDef f
+  | .interface => ∀ f ∈ d.fields, WFFieldDef f
+  | .union => True
+  | .enum => ∀ e ∈ d.enumValues, WFEnumVal e
+  | .inputObject => ∀ f ∈ d.fields, WFInputField f
+
+/-- "must extend something": what each kind of extension needs at least one of -/
+def ExtendsSomething (d : Definition) : Prop :=
+  match d.kind with
+  | .scalar => d.dirs ≠ []
+  | .object => d.interfaces ≠ [] ∨ d.dirs ≠ [] ∨ d.fields ≠ []
+  | .interface => d.interfaces ≠ [] ∨ d.dirs ≠ [] ∨ d.fields ≠ []
+  | .union => d.dirs ≠ [] ∨ d.types ≠ []
+  | .enum => d.dirs ≠ [] ∨ d.enumValues ≠ []
+  | .inputObject => d.dirs ≠ [] ∨ d.fields ≠ []
+
+def isOperationType (op : Bytes) : Prop := op = str "query" ∨ op = str "mutation" ∨ op = str "subscription"
+
+def WFSchemaDef (s : SchemaDef) : Prop :=
+  ConstDirectives s.dirs ∧ s.opTypes ≠ [] ∧ ∀ o ∈ s.opTypes, isOperationType o.op
+
+def WFSchemaExt (s : SchemaDef) : Prop :=
+  ConstDirectives s.dirs ∧ (s.dirs ≠ [] ∨ s.opTypes ≠ []) ∧ ∀ o ∈ s.opTypes, isOperationType o.op
+
+def WFDirectiveDef (d : DirectiveDef) : Prop :=
+  (∀ a ∈ d.args, WFArgDef a) ∧ d.locations ≠ [] ∧ ∀ l ∈ d.locations, l ∈ directiveLocationNames
+
+/-- the type-system documents whose print is derivable -/
+def WFSchema (d : SchemaDoc) : Prop :=
+  (d.schema ≠ [] ∨ d.schemaExt ≠ [] ∨ d.directives ≠ [] ∨ d.definitions ≠ [] ∨ d.extensions ≠ [])
+  ∧ (∀ x ∈ d.schema, WFSchemaDef x) ∧ (∀ x ∈ d.schemaExt, WFSchemaExt x)
+  ∧ (∀ x ∈ d.directives, WFDirectiveDef x) ∧ (∀ x ∈ d.definitions, WFDefBody x)
+  ∧ (∀ x ∈ d.extensions, WFDefBody x ∧ ExtendsSomething x)
+
 end Gql.Print
